@@ -16,6 +16,7 @@ import (
 
 	"github.com/ontio/ontology/common"
 	"github.com/ontio/ontology/common/log"
+	vconfig "github.com/ontio/ontology/consensus/vbft/config"
 	"github.com/ontio/ontology/core/signature"
 	"github.com/ontio/ontology/core/types"
 )
@@ -41,7 +42,7 @@ type enInput struct {
 func enSecKey(h *types.Header) string {
 	s := ""
 	for _, b := range h.Bookkeepers {
-		s += fmt.Sprintf("%x,", vconfigID(b))
+		s += vconfig.PubkeyID(b) + ","
 	}
 	s += "|"
 	for _, g := range h.SigData {
@@ -51,9 +52,16 @@ func enSecKey(h *types.Header) string {
 }
 
 // number of distinct consensus peers (keys 1..n) with a valid signature over the header's hash among its SigData
+var enValidMemo = map[string]int{}
+
 func (w *shWorld) validMemberSigners(h *types.Header, n int) int {
 	hash := h.Hash()
+	mk := fmt.Sprintf("%x/", hash[:]) + enSecKey(h)
+	if v, ok := enValidMemo[mk]; ok {
+		return v
+	}
 	cnt := 0
+	defer func() { enValidMemo[mk] = cnt }()
 	for k := 0; k < n; k++ {
 		for _, sg := range h.SigData {
 			if signature.Verify(w.keys[k].pub, hash[:], sg) == nil {
